@@ -454,6 +454,17 @@ def resource_cases(nw=2):
         if base["name"].startswith(("res_owner_awaited", "res_explicit_close", "res_sent", "res_nested_capture_w")):
             d = dict(base, name=base["name"].replace("_w%d" % nw, "_deferred_w%d" % nw), deferred_io=True, iomodes=["later"])
             out.append(d)
+    # ONE select awaits the owner and processes on other workers that are still running: the owner's completion is
+    # reported while the environment is still collecting the other workers' answers to the initial query (seeded
+    # change C14-4: clean-up used only the LAST worker's report, so a completion that arrived earlier in the round
+    # closed nothing).  `late`: the owner is still running when the query arrives and finishes inside the window.
+    for late in (False, True):
+        s = scenario("res_await_window%s_w%d" % ("_late" if late else "", nw),
+                     [[spawn(1, 2), spawn(2, 3), spawn(3, 3)] + ([send(1, c(I(7)))] if late else [select(6, tmo(1))]) +
+                      [select(4, aw(1), aw(2), aw(3)), ret(r(4))],
+                      ([select(3, recv())] if late else []) + [ropen(1), ruse(2, 1), ret(r(2))],
+                      [select(1, recv(("bin",))), ret(OKE)]], nw=nw, io=True, maxtick=2, maxpid=4)
+        out.append(meta(s, True, False, ["C14", "C04"]))
     # an owner nobody awaits (the known finding: its resource is never closed)
     s = scenario("res_owner_unawaited_w%d" % nw,
                  [[spawn(1, 2), spawn(2, 3), select(3, aw(2)), ret(r(3))],
